@@ -54,7 +54,13 @@ func memoryGuard(limit uint64) {
 
 func (n *n3Node) live() liveCtx {
 	rs := n.conS.GetRoundState()
-	lc := liveCtx{H: rs.Height, R: rs.Round, Step: uint32(rs.Step), NVals: 2}
+	lc := liveCtx{H: rs.Height, R: rs.Round, Step: uint32(rs.Step), NVals: 2, LCR: -1}
+	if rs.Validators != nil {
+		lc.NVals = rs.Validators.Size()
+	}
+	if rs.LastCommit != nil {
+		lc.LCR = rs.LastCommit.GetRound()
+	}
 	if rs.ProposalBlock != nil && rs.ProposalBlockParts != nil {
 		bid := types.BlockID{Hash: rs.ProposalBlock.Hash(), PartSetHeader: rs.ProposalBlockParts.Header()}
 		pb := bid.ToProto()
@@ -171,7 +177,16 @@ func (ch *n3Child) deliver(in *n3Input) {
 		sent++
 	}
 	if in.Reactor == "consensus" && n.nodeHasPeer(n.hostile) {
-		time.Sleep(3 * n3GossipSleep) // let the gossip routines act on the peer state
+		// let the gossip routines act on the peer state
+		if in.DwellMs > 0 {
+			if in.Mirror {
+				_, _ = n.mirrorTypes(tmproto.PrevoteType) // an honest prevote arrives: the node has new votes to gossip
+			}
+			time.Sleep(time.Duration(in.DwellMs) * time.Millisecond)
+			r.Count("n3.stateful_sequences_with_dwell", 1)
+		} else {
+			time.Sleep(3 * n3GossipSleep)
+		}
 	}
 	if !n.nodeHasPeer(n.hostile) {
 		outcome = "dropped"
